@@ -232,6 +232,10 @@ func (repo *BlockRepository) Hash(ctx context.Context, height int) (*bitcoin.Has
 
 // This function is internal and doesn't lock the mutex so it can be internally without double locking.
 func (repo *BlockRepository) getHash(ctx context.Context, height int) (*bitcoin.Hash32, error) {
+	if height < 0 {
+		return nil, ErrInvalidHeight
+	}
+
 	if height > repo.height {
 		return nil, errors.New("Hash height beyond tip") // We don't know the hash for that height yet
 	}
@@ -269,7 +273,7 @@ func (repo *BlockRepository) Time(ctx context.Context, height int) (uint32, erro
 
 // This function is internal and doesn't lock the mutex so it can be internally without double locking.
 func (repo *BlockRepository) getTime(ctx context.Context, height int) (uint32, error) {
-	if height > repo.height {
+	if height < 0 || height > repo.height {
 		return 0, nil // We don't know the hash for that height yet
 	}
 
@@ -309,7 +313,7 @@ func (repo *BlockRepository) Header(ctx context.Context, height int) (*wire.Bloc
 
 // This function is internal and doesn't lock the mutex so it can be internally without double locking.
 func (repo *BlockRepository) getHeader(ctx context.Context, height int) (*wire.BlockHeader, error) {
-	if height > repo.height {
+	if height < 0 || height > repo.height {
 		return nil, ErrInvalidHeight // We don't know the header for that height yet
 	}
 
